@@ -394,7 +394,9 @@ def hex_from_temp(value: bool | float | None) -> HexStr4:
         raise TypeError(f"Invalid temp: {value} is not a float")
     # if not -(2**7) <= value < 2**7:  # TODO: tighten range
     #     raise ValueError(f"Invalid temp: {value} is out of range")
-    temp = int(value * 100)
+    temp = round(value * 100)
+    if not -(2**15) <= temp < 2**15:
+        raise ValueError(f"Invalid temp: {value} is out of range")
     return f"{temp if temp >= 0 else temp + 2 ** 16:04X}"
 
 
